@@ -193,8 +193,8 @@ fn polyhedra_stream<const K: usize>(t: &AffTree<K>, skips: &[usize], use_iter: b
         while let Some((depth, idx, n_remaining, polys)) = it.next() {
             out.push(json!({"depth": depth, "index": idx, "n_remaining": n_remaining,
                             "polys": Value::Array(polys.iter().map(x_poly).collect())}));
-            if skips.contains(&pos) {
-                it.skip_subtree();
+            for _ in 0..skips.iter().filter(|p| **p == pos).count() {
+                it.skip_subtree();      // a position listed twice: skip_subtree is called twice in a row
             }
             pos += 1;
         }
@@ -205,8 +205,8 @@ fn polyhedra_stream<const K: usize>(t: &AffTree<K>, skips: &[usize], use_iter: b
         while let Some((data, polys)) = it.next(&t.tree) {
             out.push(json!({"depth": data.depth, "index": data.index, "n_remaining": data.n_remaining,
                             "polys": Value::Array(polys.iter().map(x_poly).collect())}));
-            if skips.contains(&pos) {
-                it.skip_subtree();
+            for _ in 0..skips.iter().filter(|p| **p == pos).count() {
+                it.skip_subtree();      // a position listed twice: skip_subtree is called twice in a row
             }
             pos += 1;
         }
@@ -225,7 +225,7 @@ fn traversal<const K: usize>(t: &AffTree<K>, kind: &str, start: usize, skips: &[
             hints.push(json!([h.0, h.1]));
             while let Some(d) = it.next(&t.tree) {
                 out.push(json!({"depth": d.depth, "index": d.index, "n_remaining": d.n_remaining}));
-                if skips.contains(&pos) {
+                for _ in 0..skips.iter().filter(|p| **p == pos).count() {
                     it.skip_subtree();
                 }
                 let h = it.size_hint();
@@ -243,7 +243,7 @@ fn traversal<const K: usize>(t: &AffTree<K>, kind: &str, start: usize, skips: &[
             hints.push(json!([h.0, h.1]));
             while let Some(e) = it.next(&t.tree) {
                 out.push(json!({"src": e.src, "label": e.label, "dest": e.dest}));
-                if skips.contains(&pos) {
+                for _ in 0..skips.iter().filter(|p| **p == pos).count() {
                     it.skip_subtree();
                 }
                 let h = it.size_hint();
@@ -459,6 +459,37 @@ fn step(env: &mut Env, s: &Value) -> Value {
                 Err(e) => json!({"result": "err", "msg": e.to_string()}),
             }
         }
+        "cut_and_regrow" => {
+            // remove_all_descendants on the pick-th decision below the root (it stays in the tree as a terminal), then
+            // optionally turn the first other terminal into a decision with two new terminals (reuses the freed indices)
+            let pick = us(s, "pick");
+            let regrow = if s["regrow"].is_object() {
+                Some((aff_of(&s["regrow"]["dec"]), aff_of(&s["regrow"]["t0"]), aff_of(&s["regrow"]["t1"])))
+            } else {
+                None
+            };
+            let t = env.trees.get_mut(st(s, "tree")).expect("driver: no tree");
+            with_tree!(t, t => {
+                let root = t.tree.get_root_idx();
+                let decs: Vec<usize> = t.tree.decision_indices().filter(|i| *i != root).collect();
+                if decs.is_empty() {
+                    json!({"result": "none"})
+                } else {
+                    let node = decs[pick % decs.len()];
+                    let removed = t.tree.remove_all_descendants(node).map_err(|e| e.to_string());
+                    let mut grown = Vec::new();
+                    if let Some((dec, t0, t1)) = regrow {
+                        let first = t.tree.terminal_indices().find(|i| *i != node);
+                        if let Some(term) = first {
+                            t.update_node(term, dec).expect("driver: update_node on a terminal");
+                            grown.push(t.add_child_node(term, 0, t0).expect("driver: add_child_node"));
+                            grown.push(t.add_child_node(term, 1, t1).expect("driver: add_child_node"));
+                        }
+                    }
+                    json!({"result": "ok", "node": node, "removed": removed.unwrap_or(-1), "grown": grown})
+                }
+            })
+        }
         "merge_child" => {
             let (parent, label) = (us(s, "parent"), us(s, "label"));
             let t = env.trees.get_mut(st(s, "tree")).expect("driver: no tree");
@@ -492,10 +523,21 @@ fn step(env: &mut Env, s: &Value) -> Value {
         "compose" => {
             let other = clone_any(env.trees.get(st(s, "other")).expect("driver: no tree"));
             let prune = s["prune"].as_bool().unwrap_or(false);
+            let verbose = s["verbose"].as_bool().unwrap_or(false);      // the progress-bar instantiations of the same entry point
             let t = env.trees.get_mut(st(s, "tree")).expect("driver: no tree");
             match (t, &other) {
-                (AnyTree::B(t), AnyTree::B(o)) => if prune { t.compose::<true, false>(o) } else { t.compose::<false, false>(o) },
-                (AnyTree::Q(t), AnyTree::Q(o)) => if prune { t.compose::<true, false>(o) } else { t.compose::<false, false>(o) },
+                (AnyTree::B(t), AnyTree::B(o)) => match (prune, verbose) {
+                    (true, false) => t.compose::<true, false>(o),
+                    (false, false) => t.compose::<false, false>(o),
+                    (true, true) => t.compose::<true, true>(o),
+                    (false, true) => t.compose::<false, true>(o),
+                },
+                (AnyTree::Q(t), AnyTree::Q(o)) => match (prune, verbose) {
+                    (true, false) => t.compose::<true, false>(o),
+                    (false, false) => t.compose::<false, false>(o),
+                    (true, true) => t.compose::<true, true>(o),
+                    (false, true) => t.compose::<false, true>(o),
+                },
                 _ => panic!("driver: compose with different K"),
             }
             // the right operand must be left unchanged: export it after the call
